@@ -58,7 +58,8 @@ Step ==
   /\ LET op == S.op IN
      CASE op[1] = "stage" ->
             LET sn == (op[2] :> [kind |-> op[3], ev |-> <<>>, live |-> ~IsDone(phase), closed |-> FALSE,
-                                     bare |-> Len(op) > 3 /\ op[4] = "bare", boom |-> Len(op) > 3 /\ op[4] = "boom"]) @@ seen
+                                     bare |-> Len(op) > 3 /\ op[4] = "bare", boom |-> Len(op) > 3 /\ op[4] = "boom",
+                                     reent |-> Len(op) > 3 /\ op[4] = "reent", ord |-> Cardinality(DOMAIN seen) + 1]) @@ seen
             IN /\ seen' = sn /\ phase' = phase
                /\ fails' = fails \o CheckStages(sn, phase) \o CheckClean(phase)
                            \o (IF S.outcome = "ok" THEN <<>> ELSE <<F("Outcome", "stage", S.outcome)>>)
@@ -88,14 +89,24 @@ Step ==
                          THEN [sid \in DOMAIN seen |-> IF seen[sid].live THEN [seen[sid] EXCEPT !.ev = Append(@, op[2] + 1)] ELSE seen[sid]]
                          ELSE seen
                 closed == [sid \in DOMAIN first |-> IF first[sid].live THEN [first[sid] EXCEPT !.closed = TRUE] ELSE first[sid]]
-                sn == (op[4] :> [kind |-> "accum", ev |-> <<>>, live |-> FALSE, closed |-> FALSE, bare |-> FALSE, boom |-> FALSE]) @@ closed
+                sn == (op[4] :> [kind |-> "accum", ev |-> <<>>, live |-> FALSE, closed |-> FALSE, bare |-> FALSE, boom |-> FALSE,
+                                 reent |-> FALSE, ord |-> Cardinality(DOMAIN seen) + 1]) @@ closed
             IN /\ phase' = "doneX" /\ seen' = sn
                /\ fails' = fails \o CheckStages(sn, "doneX") \o CheckClean("doneX")
                            \o (IF S.outcome = "ok" THEN <<>> ELSE <<F("Outcome", "calld", S.outcome)>>)
        [] op[1] = "call" ->
-            LET sn == IF phase = "active"
-                      THEN [sid \in DOMAIN seen |-> IF seen[sid].live THEN [seen[sid] EXCEPT !.ev = @ \o [i \in 1..T.per |-> op[2] + 1]] ELSE seen[sid]]
-                      ELSE seen
+            \* a live re-entrant listener R (attached as an accumulating stage; histories with one such stage use the plain selector)
+            \* calls f(a + 100) from inside the delivery of the event a = v + 1: the stages attached before R, and R itself, see
+            \* the outer event first, the stages attached after R see the inner one first (observers are served in order)
+            LET RS == {sid \in DOMAIN seen : seen[sid].live /\ seen[sid].reent}
+                e1 == op[2] + 1
+                e2 == op[2] + 102
+                sn == IF phase # "active" THEN seen
+                      ELSE IF RS = {} THEN [sid \in DOMAIN seen |-> IF seen[sid].live THEN [seen[sid] EXCEPT !.ev = @ \o [i \in 1..T.per |-> e1]] ELSE seen[sid]]
+                      ELSE LET R == CHOOSE r \in RS : \A q \in RS : seen[r].ord <= seen[q].ord
+                           IN [sid \in DOMAIN seen |-> IF ~seen[sid].live THEN seen[sid]
+                                                        ELSE IF seen[sid].ord <= seen[R].ord THEN [seen[sid] EXCEPT !.ev = @ \o <<e1, e2>>]
+                                                        ELSE [seen[sid] EXCEPT !.ev = @ \o <<e2, e1>>]]
             IN /\ seen' = sn /\ phase' = phase
                /\ fails' = fails \o CheckStages(sn, phase) \o CheckClean(phase)
                            \o (IF S.outcome = "ok" THEN <<>> ELSE <<F("Outcome", "call", S.outcome)>>)
